@@ -951,6 +951,10 @@ def slice_first_last(ex, m, a, fr, dest):
 
 @model(r'(?:core|std|alloc)::slice::<impl \[.*\]>::iter|(?:core|std|alloc)::slice::<impl \[.*\]>::iter_mut|(?:std::vec::)?Vec::<.*>::iter|(?:std::collections::)?VecDeque::<.*>::iter|<&(?:mut )?(?:std::vec::)?Vec<.*> as IntoIterator>::into_iter|<&(?:mut )?\[.*\] as IntoIterator>::into_iter')
 def slice_iter(ex, m, a, fr, dest):
+    v0 = deref(a[0])
+    if type(v0).__name__ == 'Data':
+        from .env import DataBytesIter
+        return DataBytesIter(v0)
     items, lo, hi = seq_items(deref(a[0]))
     return PyIter((Ref(items, i, True) for i in range(lo, hi)), hi - lo)
 
